@@ -101,7 +101,9 @@ PROPS = {
         explanation="C08.refines_reference: results and callback invocations equal those of a reference LRU (unordered residents + last-use stamps) for every call sequence, any capacity >= 1, any key mapping, any create/expiry oracle; size_le_cap; delete_callback_exactly_once",
     ),
     "C17": dict(
-        lean=["GolibsVerif.Props.C17"],
+        generated=True,   # skeleton facts regenerated from blocks.go (every bookkeeping access inside the locked region)
+        lean=["GolibsVerif.Props.C17", "GolibsVerif.Props.C17Conc", "GolibsVerif.Props.Lin"],
+        facts={"blocks.unlocked_state_access": [], "blocks.locked_methods": ["ArrangeBlock", "FreeBlock"]},
         seq=[dict(comp="blk", decisive=lambda d: d["op"].startswith("mon C17") or (not d["op"].startswith("hdr")))],
         go_cmds=("seq", "conc"),
         # concurrent callers: real goroutines parked right before the allocator's lock; the calls, in the order of
@@ -110,7 +112,7 @@ PROPS = {
         rule="cases = (geometry, buffer size, fit flag, preset header bytes, op sequence): 22 block sizes (negative, 0, non-powers of two, powers of two up to 2048, page size +-1, multiples of the page size) x 7 small buffer sizes + exact-fit/oversized/too-small buffers x fit; exhaustive sequences to depth 5 (quick) / 6 (thorough) over {ArrangeBlock, FreeBlock(first, second, last, out of range), Block, reopen-on-a-copy, Available} on bs=1 (1 and 2 segments, 4 preset header contents) and bs=2; random runs of 20..300 ops on bs in {1,2,4,8} with 1..3 segments; buffers larger than 200 kB run with Go-side monitors only; non-trivial = an allocation followed a free, a segment boundary was crossed, the state was (re)opened with allocations present, or an invalid geometry was rejected; distinct by hash of (header, ops)",
         assumptions=["the Buffer is the in-memory implementation (a memory-mapped file behaves the same as far as the allocator can tell; mmap persistence is the kernel)", "fewer than 2^31 blocks (available is an int32)", "concurrent callers: the sequential model is applied to the calls in the order of their locked sections (harness: callers parked right before the lock + free-running goroutines); atomicity of a locked section is Go's sync.Mutex"],
         trusted=["modelled, not verified: Buffer(offs,size) slicing, os.Getpagesize() (its value is passed to the model), sync/atomic counter"],
-        explanation="C17.refines_set (outputs equal to the set model for every op sequence from any opened allocator: least free index handed out, ErrExhausted iff full, Available exact, reopen reproduces the set), geometry_valid_iff_accepted, ranges_disjoint, reopen_same_state, data_untouched; legacy_accepts_invalid is the kernel-checked witness of D4",
+        explanation="C17Conc.concurrent_refines_set / order_respects_real_time / completed_in_order (generic atomic-step linearizability instantiated with Blk.B.step; premise = skeleton fact blocks.unlocked_state_access = []); C17.refines_set (outputs equal to the set model for every op sequence from any opened allocator: least free index handed out, ErrExhausted iff full, Available exact, reopen reproduces the set), geometry_valid_iff_accepted, ranges_disjoint, reopen_same_state, data_untouched; legacy_accepts_invalid is the kernel-checked witness of D4",
     ),
     "C12": dict(
         lean=["GolibsVerif.Props.C12", "GolibsVerif.Props.C13Exec"],
@@ -135,8 +137,12 @@ PROPS = {
         go_cmds=("seq", "conc"),
         conc=[dict(comp="lock", driver="locktrace", args=["-focus", "C01"],
                    decisive=lambda d: d["op"].startswith("mon C01"),
-                   ignore=lambda d: d["op"].startswith("mon ") and not d["op"].startswith("mon C01"))],
-        rule=LOCK_RULE,
+                   ignore=lambda d: d["op"].startswith("mon ") and not d["op"].startswith("mon C01")),
+              # real time, real storage, no faults: scenarios in which a second caller gets in although the holder is
+              # alive and every call is answered (a lease granted with a stale deadline, a renewal chain cut short)
+              dict(comp="lockrt", driver="monitors", decisive=lambda d: d["op"].startswith("mon C01"),
+                   ignore=lambda d: not d["op"].startswith("mon C01"))],
+        rule=LOCK_RULE + LOCK_RULE_RT,
         assumptions=LOCK_ASSUME,
         trusted=LOCK_TRUSTED,
         explanation=LOCK_EXPL["C01"],
@@ -272,7 +278,7 @@ MANIFEST_TEXT = {
     "C14": _t("Lean proof that the ring-buffer I-model refines a bounded FIFO queue for every capacity and call sequence and keeps consumed slots zero; tied to ringbuffer.go by a differential run incl. the backing array and a Go-side zero-slot monitor", "Lean 4 refinement proof (I-model ⊑ bounded queue) + model/code correspondence"),
     "C15": _t("Lean proof of round trip, exact consumption, size = written (against the size function REGENERATED from the Go source on every run), short-buffer ⇔ error, writer = marshal and concatenation decoding for all values; tied by regeneration + differential run with Go-side round-trip/size/aliasing monitors", "Lean 4 proofs over a regenerated definition + model/code correspondence"),
     "C16": _t("Lean proof that every Unmarshal function is total on arbitrary byte lists, stays in bounds and consumes 0 on error (explicit int64 wrap-around and checked slicing in the model); tied by a differential run on exhaustive short inputs and adversarial length prefixes, each call under recover", "Lean 4 totality proof + model/code correspondence"),
-    "C17": _t("Lean proof that the allocator I-model refines a set of allocated indices for every op sequence from any opened allocator (least free index, ErrExhausted iff full, Available exact, reopen reproduces the set), geometry accepted iff valid, ranges disjoint, data untouched; tied to blocks.go by a differential run incl. header bytes and Go-side monitors", "Lean 4 refinement proof (I-model ⊑ set) + model/code correspondence"),
+    "C17": _t("Lean proof that the allocator I-model refines a set of allocated indices for every op sequence from any opened allocator (least free index, ErrExhausted iff full, Available exact, reopen reproduces the set), geometry accepted iff valid, ranges disjoint, data untouched; concurrent callers: every interleaving of calls whose bookkeeping accesses lie inside one mutex region (fact regenerated from blocks.go) is a sequential history in section order to which the refinement applies (C17Conc.concurrent_refines_set); tied to blocks.go by a differential run incl. header bytes, by real goroutines parked before the lock and replayed in section order, and Go-side monitors", "Lean 4 refinement proof (I-model ⊑ set) + model/code correspondence"),
     "C18": _t("Lean proof that the mixer I-model equals the reference two-pointer merge under every HasNext/Next/Reset pattern, is an interleaving, merges sorted inputs sorted; tied to mixer.go by a differential run", "Lean 4 refinement proof (I-model ⊑ reference merge) + model/code correspondence"),
     "C19": _t("Lean proof, against the class list and both tables REGENERATED from errors.go/grpc.go, that Is(GRPCWrap(e), c) holds exactly for the chain's class in any map order, GRPCWrap is idempotent, embedded objects stay extractable, every code maps to one class; tied by regeneration + differential run with Go-side monitors", "Lean 4 proofs over regenerated tables (decide + structural induction) + model/code correspondence"),
 }
